@@ -25,6 +25,7 @@ import PyAbel.Model.RbasexBasis
 import PyAbel.Model.SPolyTerm
 import PyAbel.Model.Daun3
 import PyAbel.Model.Basex
+import PyAbel.Model.DaunCache
 import PyAbel.Gen.Tables
 open PyAbel PyAbel.Proto
 
@@ -190,6 +191,42 @@ def bxHistory (ops : List String) : String :=
         | none => none
       | _ => none
   match go BxCache.St.init ops [] with
+  | some lines => "ok " ++ " | ".intercalate lines
+  | none => "bad-op"
+
+/-- `dauncache <op>…`: ops `c:n:deg:kind:r:s:f` (call: size, degree, kind 0 none / 1 nonneg / 2 linear, regulariser id, strength id with 0 = zero
+    strength, forward 0/1) and `x:all|inverse` -/
+def daunHistory (ops : List String) : String :=
+  let zero : Nat → Bool := fun s => s == 0
+  let showKind : DaunCache.Kind Nat → String := fun k => match k with | .none => "0:0" | .nonneg => "1:0" | .lin r => s!"2:{r}"
+  let show_ := fun (s : DaunCache.St Nat Nat) =>
+    let b := match s.bs with | some (a, d) => s!"{a},{d}" | none => "-"
+    let p := match s.trPrm with
+      | some (m, k, str) => s!"{m},{showKind k}," ++ (match str with | some v => toString v | none => "-")
+      | none => "-"
+    s!"bs={b} tr={if s.tr.isSome then 1 else 0} trprm={p}"
+  let rec go (s : DaunCache.St Nat Nat) (ops : List String) (acc : List String) : Option (List String) :=
+    match ops with
+    | [] => some acc.reverse
+    | op :: rest =>
+      match op.splitOn ":" with
+      | ["c", n, d, k, r, str, f] =>
+        match n.toNat?, d.toNat?, k.toNat?, r.toNat?, str.toNat?, f.toNat? with
+        | some n, some d, some k, some r, some str, some f =>
+          let kind : DaunCache.Kind Nat := if k == 0 then .none else if k == 1 then .nonneg else .lin r
+          let (s', out) := DaunCache.call zero s ⟨n, d, kind, str, f == 1⟩
+          let t := match out with
+            | .basis a b c => s!"ret:basis:{a}:{b}:{c}" | .full a b c => s!"ret:full:{a}:{b}:{c}"
+            | .reg a b c r' v => s!"ret:reg:{a}:{b}:{c}:{r'}:{v}" | .raise => "raise"
+          go s' rest (s!"{t} {show_ s'}" :: acc)
+        | _, _, _, _, _, _ => none
+      | ["x", sel] =>
+        let sel? : Option DaunCache.Select := match sel with | "all" => some .all | "inverse" => some .inverse | _ => none
+        match sel? with
+        | some sel => let s' := DaunCache.cleanup s sel; go s' rest (s!"clean {show_ s'}" :: acc)
+        | none => none
+      | _ => none
+  match go DaunCache.St.init ops [] with
   | some lines => "ok " ++ " | ".intercalate lines
   | none => "bad-op"
 
@@ -398,6 +435,7 @@ def handle (toks : List String) : String :=
   -- rbxcache op op …   →  history of rbasex's in-memory transform caches
   | "rbxcache" :: rest => rbxHistory rest
   | "bxcache" :: rest => bxHistory rest
+  | "dauncache" :: rest => daunHistory rest
   -- spterm m n rmin rmax r cos  →  SPolynomial(r, cos, rmin, rmax, c = e_{m,n}).abel at one point
   | ["spterm", m, n, rmin, rmax, r, cs] =>
     match m.toNat?, n.toNat?, parseFloat rmin, parseFloat rmax, parseFloat r, parseFloat cs with
